@@ -140,13 +140,21 @@ fn input_entry(ty: Ty, rng: &mut Rng) -> (String, &'static str, Option<String>) 
         let xs: Vec<String> = (0..n).map(|_| lit(ty, rng)).collect();
         (xs.join(","), "disjunction", Some(rng.pick(&xs).clone()))
       }
-      _ => {
-        if rng.chance(1, 2) {
-          (format!("not({})", lit(ty, rng)), "not", None)
-        } else {
-          (format!("not({},{})", lit(ty, rng), lit(ty, rng)), "not", None)
+      _ => match rng.below(4) {
+        0 => (format!("not({})", lit(ty, rng)), "not", None),
+        1 => (format!("not({},{})", lit(ty, rng), lit(ty, rng)), "not", None),
+        _ => {
+          // negated comparisons; the witness input is the bound itself
+          let k = rng.range(1, 6);
+          let op = *rng.pick(&["<", "<=", ">", ">="]);
+          if rng.chance(1, 3) {
+            let j = k + rng.range(1, 3);
+            (format!("not(< {}, {} {})", k, op, j), "not-comparison", Some(format!("{}", if rng.chance(1, 2) { k } else { j })))
+          } else {
+            (format!("not({} {})", op, k), "not-comparison", Some(format!("{}", k)))
+          }
         }
-      }
+      },
     },
   }
 }
@@ -723,6 +731,44 @@ fn input_tuple(t: &GenTable, wits: &[Vec<Option<String>>], rng: &mut Rng) -> Vec
   tuple
 }
 
+/// What a generated numeric input entry says about an integer input value, computed here from the
+/// entry's text alone (`-`, literals, comparisons, intervals with `[ ( ]` / `] ) [` ends, disjunctions,
+/// `not(…)`): the rule-matching half of the property, independent of the FEEL evaluator.
+fn entry_oracle(entry: &str, v: i64) -> Option<bool> {
+  let e = entry.trim();
+  let (negated, body) = match e.strip_prefix("not(").and_then(|r| r.strip_suffix(')')) {
+    Some(b) => (true, b),
+    None => (false, e),
+  };
+  let mut any = false;
+  for test in body.split(',') {
+    let t = test.trim();
+    let ok = if t == "-" {
+      true
+    } else if let Some(r) = t.strip_prefix("<=") {
+      v <= r.trim().parse::<i64>().ok()?
+    } else if let Some(r) = t.strip_prefix(">=") {
+      v >= r.trim().parse::<i64>().ok()?
+    } else if let Some(r) = t.strip_prefix('<') {
+      v < r.trim().parse::<i64>().ok()?
+    } else if let Some(r) = t.strip_prefix('>') {
+      v > r.trim().parse::<i64>().ok()?
+    } else if t.contains("..") {
+      let (ob, rest) = t.split_at(1);
+      let (mid, cb) = rest.split_at(rest.len() - 1);
+      let (lo, hi) = mid.split_once("..")?;
+      let (lo, hi) = (lo.trim().parse::<i64>().ok()?, hi.trim().parse::<i64>().ok()?);
+      let l_ok = if ob == "[" { v >= lo } else { v > lo };
+      let r_ok = if cb == "]" { v <= hi } else { v < hi };
+      l_ok && r_ok
+    } else {
+      v == t.parse::<i64>().ok()?
+    };
+    any |= ok;
+  }
+  Some(if negated { !any } else { any })
+}
+
 fn context_of(t: &GenTable, tuple: &[Option<String>]) -> (FeelContext, FeelContext, String) {
   // `sent`: what the caller passes; `seen`: what the decision logic sees (absent ⇒ null)
   let scope = Scope::default();
@@ -808,6 +854,44 @@ pub fn run(cfg: &Cfg) -> Report {
     for _ in 0..tuples_per_table {
       let tuple = input_tuple(&t, &wits, &mut rng);
       let (sent, seen, input_text) = context_of(&t, &tuple);
+      // rule matching, cell by cell, against the oracle on the entry text (numeric columns, integer inputs)
+      {
+        let scope: Scope = seen.clone().into();
+        for (i, c) in t.ins.iter().enumerate() {
+          let v = match (&c.ty, tuple[i].as_ref().and_then(|tv| tv.trim().parse::<i64>().ok())) {
+            (Ty::Num, Some(v)) => v,
+            _ => continue,
+          };
+          for r in &t.rules {
+            let want = match entry_oracle(&r.inputs[i], v) {
+              Some(w) => w,
+              None => continue,
+            };
+            let got = guarded(|| {
+              let ie = dmntk_feel_parser::parse_expression(&scope, &c.name, false).ok()?;
+              let entry = dmntk_feel_parser::parse_unary_tests(&scope, &r.inputs[i], false).ok()?;
+              dmntk_feel_evaluator::evaluate(&scope, &AstNode::In(Box::new(ie), Box::new(entry))).ok()
+            });
+            rep.hit("cell-oracle:checked");
+            let shown = match &got {
+              Ok(Some(Value::Boolean(b))) => b.to_string(),
+              Ok(Some(other)) => format!("{}", other),
+              Ok(None) => "error".to_string(),
+              Err(p) => format!("panic {}", p),
+            };
+            if shown != want.to_string() {
+              rep.disagree(
+                Kind::ImplVsSpec,
+                "rule-matching",
+                "an input entry is satisfied (or not) contrary to what its text says: the set of matching rules is wrong",
+                &format!("input value {} against the input entry `{}`", v, r.inputs[i]),
+                &shown,
+                &want.to_string(),
+              );
+            }
+          }
+        }
+      }
       let req = match request(&t, &seen) {
         Some(r) => r,
         None => {
